@@ -114,12 +114,23 @@ pub fn run(rep: &mut Report) {
                 rep.hit(if valid { "identifier/case-variant" } else { "identifier/near-miss" });
             }
         }
-        for junk in ["", "/", "Etc/", "America", "America/", "posix/UTC", "right/UTC", "localtime", "posixrules", "tzdata.zi", "zone.tab", "../etc/passwd", "Europe/Lond\u{f6}n", "UTC\0", "Etc/GMT+15", "Etc/GMT-15", "GMT+24", "UT C"] {
+        for junk in ["", "/", "Etc/", "America", "America/", "posix/UTC", "right/UTC", "posix/Europe/Berlin", "right/America/New_York", "localtime", "posixrules", "tzdata.zi", "zone.tab", "../etc/passwd", "Europe/Lond\u{f6}n", "UTC\0", "Etc/GMT+15", "Etc/GMT-15", "GMT+24", "UT C"] {
             let got = call_inf(|| long_lived.check_identifier(junk));
             if got.as_ok() != Some(&false) {
                 rep.violation("C15.identifier", "check_identifier", "junk", json!({"id": junk}), got.show(), "false".into());
             }
             rep.hit("identifier/junk");
+            // the answer must not change after the same provider was asked about that name (readable non-IANA files
+            // of the zoneinfo directory such as posix/..., right/..., posixrules get loaded by such a query)
+            let q1 = call(|| long_lived.get_named_tz_offset_nanoseconds(junk, 0).map(|o| o.offset));
+            let q2 = call(|| long_lived.get_named_tz_epoch_nanoseconds(junk, temporal_rs::iso::IsoDateTime::default()).map(|v| v.len()));
+            let after = call_inf(|| long_lived.check_identifier(junk));
+            if after.as_ok() != Some(&false) {
+                rep.violation("C15.history", "check_identifier", "junk-after-a-query-for-it", json!({"id": junk, "offset_query": q1.show(), "local_query": q2.show()}), after.show(), "false".into());
+            }
+            if matches!(q1, Out::Ok(_)) {
+                rep.hit("identifier/junk-name-that-the-provider-could-load");
+            }
         }
     }
 
